@@ -388,6 +388,7 @@ func vhResultSame(a, b any) bool {
 func vhResetGlobals() {
 	vhAnyLimit, vhVarMax, vhIntCap, vhTruthyWhenZero, vhSymOpBudget = 0, 2, 0, false, 0
 	vhSpecial = nil
+	vhNewRun()
 	sLogDefault, cLogDefault = devNull, devNull
 	sLogLevelDefault, cLogLevelDefault = NoLogLevels, NoLogLevels
 }
